@@ -27,6 +27,11 @@ def rand_cfg(rng, cyclic=False):
            'driver_scaling': rng.random() < 0.5}
     if cfg['linear'] == 'direct_asm' and cfg['jac'] is None:
         cfg['jac'] = rng.choice(['dense', 'csc'])
+    if not cyclic and rng.random() < 0.2:
+        # three levels: block solver at the root, Krylov on its children, assembled jacobians below
+        cfg['linear'] = rng.choice([None, 'runonce', 'lbgs'])
+        cfg['sub_by_depth'] = {'1': 'krylov', '2': rng.choice(['direct_asm', 'direct_asm', 'direct'])}
+        cfg['jac'] = rng.choice(['dense', 'csc'])
     if cfg['linear'] != 'direct_asm' and cfg['linear'] != 'krylov':
         # an assembled jacobian is only used by solvers that ask for it
         pass
